@@ -764,6 +764,9 @@ func (e *Engine) boxHeap(t types.Type) (string, *smt.Sort) {
 
 func init() {
 	smt.GroundAxiomHook = func(t *smt.Term) []*smt.Term {
+		if t.Name == "root$ref" {
+			return []*smt.Term{smt.Eq(RootOf(RefNil), RefNil)}
+		}
 		if t.Name == "typeof" {
 			return []*smt.Term{smt.Eq(TypeOf(IfaceNil), smt.IntC(0))}
 		}
